@@ -143,36 +143,71 @@ class CallableType:
 
 
 def reader_binding(ctx, mod, fns):
+    """read_scsv interpreted end to end with the file layer stubbed and the cell parser replaced by a recorder: cell (row r, column k) must be
+    parsed with the type, fill and missing marker that the schema declares for field k, and column k of the result is those parses in row order."""
+    import csv as _csv
+    from ..values import Native, Record
+    from ..interp import RaiseSig
     fn = fns["read_scsv"]
-    src = ast.unparse(fn)
-    parts = [c for c in ast.walk(fn) if isinstance(c, ast.Call) and (flow.dotted(c.func) or "").split(".")[-1] == "partial"
-             and c.args and isinstance(c.args[0], ast.Name) and c.args[0].id == "_parse_scsv_cell"]
-    ok = bool(parts)
-    detail = ""
-    for p in parts:
-        kw = {k.arg: k.value for k in p.keywords}
-        ms, fv = kw.get("missingstr"), kw.get("fillval")
-        tvar = p.args[1] if len(p.args) > 1 else None
-        okp = isinstance(ms, ast.Name) and isinstance(fv, ast.Name) and isinstance(tvar, ast.Name)
-        if okp:
-            assigns = {t.id: a.value for a in ast.walk(fn) if isinstance(a, ast.Assign) for t in a.targets if isinstance(t, ast.Name)}
-            okp = ms.id in assigns and ast.unparse(assigns[ms.id]).replace('"', "'") == "schema['missing']"
-            # the comprehension zips (types, fills, columns) in this order and unpacks into (type var, fill var, column)
-            comps = [g for lc in ast.walk(fn) if isinstance(lc, (ast.ListComp, ast.GeneratorExp)) for g in lc.generators
-                     if isinstance(g.target, ast.Tuple) and [getattr(e, "id", None) for e in g.target.elts][:2] == [tvar.id, fv.id]]
-            okp = okp and bool(comps)
-            for g in comps:
-                it = g.iter
-                if isinstance(it, ast.Call) and flow.dotted(it.func) == "zip" and len(it.args) >= 3:
-                    a0, a1 = it.args[0], it.args[1]
-                    d0 = ast.unparse(assigns.get(getattr(a0, "id", ""), a0))
-                    d1 = ast.unparse(assigns.get(getattr(a1, "id", ""), a1))
-                    okp = okp and "SCSV_TYPEMAP" in d0 and "type" in d0 and "fill" in d1 and "schema['fields']" in d0.replace('"', "'") and "schema['fields']" in d1.replace('"', "'")
-                    detail = f"types from `{d0[:60]}`, fills from `{d1[:60]}`"
-                else:
-                    okp = False
-        ok = ok and okp
-    ctx.ob("C16.reader-binding", "read_scsv", ok, detail or "could not establish that column k is parsed with the type/fill of schema field k", L(mod, fn, ctx))
+    loc = L(mod, fn, ctx)
+    I0 = Interp(ctx.program)
+    typemap = I0.resolve("pydrex.io.SCSV_TYPEMAP")
+    dtype, dfill = I0.resolve("pydrex.io._SCSV_DEFAULT_TYPE"), I0.resolve("pydrex.io._SCSV_DEFAULT_FILL")
+    schema = {"delimiter": ";", "missing": "-", "fields": [{"name": "a", "type": "integer", "fill": -1}, {"name": "b", "type": "string", "fill": "NA"},
+                                                          {"name": "c", "type": "float", "fill": "NaN"}, {"name": "d"}, {"name": "e", "type": "boolean", "fill": "False"}]}
+    rows = [["1", "x", "2.5", "q", "yes"], ["-", "-", "-", "-", "-"], ["3", "z", "4.5", "r", "no"]]
+    lines = ["---\n", "schema:\n", "---\n", "a; b; c; d; e\n"] + ["; ".join(r) + "\n" for r in rows]
+
+    def run(lines_, schema_):
+        calls = []
+
+        def cell(I_, t, s, missingstr=None, fillval=None):
+            calls.append((t, s, missingstr, fillval))
+            return ("cell", len(calls) - 1)
+        ext = {"builtins.open": Native("open", lambda I_, *a, **k: list(lines_)), "io.StringIO": Native("StringIO", lambda I_, s="": s),
+               "yaml.safe_load": Native("safe_load", lambda I_, t: {"schema": schema_}),
+               "csv.reader": Native("reader", lambda I_, ls, **kw: iter([[x.lstrip() if kw.get("skipinitialspace") else x for x in r]
+                                                                        for r in _csv.reader(ls, delimiter=kw.get("delimiter", ","))]))}
+        I = Interp(ctx.program, externals=ext, stubs={"pydrex.io.resolve_path": Native("resolve_path", lambda I_, p, *a: p),
+                                                        "pydrex.io._parse_scsv_cell": Native("_parse_scsv_cell", cell),
+                                                        "pydrex.io._validate_scsv_schema": Native("validate", lambda I_, s: True)})
+        try:
+            return I.call(I.resolve("pydrex.io.read_scsv"), ("file.scsv",)), calls, None
+        except RaiseSig as r:
+            return None, calls, r.exc
+    res, calls, exc = run(lines, schema)
+    if exc is not None or not isinstance(res, Record):
+        ctx.ob("C16.reader-binding", "read_scsv on a five-column file", False, f"raises {getattr(exc, 'typename', None)} / returns {res!r}", loc)
+        return
+    bad = []
+    for k, field in enumerate(schema["fields"]):
+        col = res.attrs.get(field["name"])
+        if not isinstance(col, tuple) or len(col) != len(rows):
+            bad.append(f"column {field['name']!r} of the result is {col!r}")
+            continue
+        want_t = typemap[field.get("type", dtype)]
+        want_f = field.get("fill", dfill)
+        for r_, v in enumerate(col):
+            if not (isinstance(v, tuple) and v[0] == "cell"):
+                bad.append(f"cell ({r_},{k}) is not a result of the cell parser: {v!r}")
+                continue
+            t, s, ms, fv = calls[v[1]]
+            if s != rows[r_][k]:
+                bad.append(f"cell ({r_},{k}) parsed from text {s!r}, file has {rows[r_][k]!r}")
+            if t is not want_t:
+                bad.append(f"column {field['name']!r} parsed as {t!r}, schema declares {want_t!r}")
+            if ms != schema["missing"]:
+                bad.append(f"column {field['name']!r} parsed with missing marker {ms!r}, schema declares {schema['missing']!r}")
+            if fv != want_f or type(fv) is not type(want_f):
+                bad.append(f"column {field['name']!r} parsed with fill {fv!r}, schema declares {want_f!r}")
+    ctx.ob("C16.reader-binding", "cell (r,k) parsed with the type, fill and missing marker of schema field k", not bad, "; ".join(dict.fromkeys(bad))[:400], loc)
+    # header / schema disagreement and ragged rows are rejected
+    res, calls, exc = run(lines[:3] + ["a; c; b; d; e\n"] + lines[4:], schema)
+    ctx.ob("C16.reader-binding", "column headers in a different order than the schema fields are rejected", exc is not None and exc.typename == "SCSVError",
+           f"{'raises ' + exc.typename if exc is not None else 'accepted'}", loc)
+    res, calls, exc = run(lines[:5] + ["1; x\n"] + lines[5:], schema)
+    ctx.ob("C16.reader-binding", "a short data row is rejected, not padded or truncated", exc is not None, "accepted" if exc is None else "", loc)
+    ctx.floor("C16.reader-binding", 3)
 
 
 RULES = {
